@@ -76,6 +76,10 @@ fn main() {
             let n: u64 = args.get(4).and_then(|s| s.parse().ok()).unwrap_or(2000);
             orch::determinism(&prop, tier, env_u64("VERIF_SEED", 1), n)
         }
+        "dump-corpus" => {
+            println!("{}", serde_json::to_string(&props::c13::dump_corpus()).unwrap());
+            0
+        }
         "replay" => {
             let v = args.iter().any(|a| a == "-v");
             orch::replay_file(args.get(2).map(|s| s.as_str()).unwrap_or(""), v)
